@@ -84,12 +84,42 @@ static inline void iora_firelist_emplace_back(iora_firelist *l, uint64_t id, voi
 static inline void iora_cbvec_reserve(iora_cbvec *v, size_t n) { (void)v; (void)n; }
 static inline void iora_cbvec_push_back(iora_cbvec *v, void *cb) { (void)cb; v->n++; }
 size_t G_map_n; TimerEntry *G_map_ents[4]; size_t G_map_clears;
+Bucket *G_bkall; unsigned G_shift; TimerEntry *G_pool; size_t GLv, GB;
 static inline size_t iora_idmap_size(iora_idmap *m) { (void)m; return G_map_n; }
 static inline size_t iora_idmap_count(iora_idmap *m) { (void)m; return G_map_n; }
+#ifdef CLEAR_MATRIX
+static inline TimerEntry *iora_idmap_nth(iora_idmap *m, size_t k) { (void)m; IORA_ASSERT(k < G_map_n, "map iteration in range"); return &G_pool[k]; }
+#else
 static inline TimerEntry *iora_idmap_nth(iora_idmap *m, size_t k) { (void)m; IORA_ASSERT(k < G_map_n && k < 4, "map iteration in range"); return G_map_ents[k]; }
+#endif
 static inline void iora_idmap_clear(iora_idmap *m) { m->present = false; G_map_n = 0; G_map_clears++; }
+/* `w.buckets[b]` inside clearAllEntries. Default: the level's own vector. Proof clearAllEntries_unbounded (-DCLEAR_MATRIX) models the vector of bucket vectors as ONE
+ * matrix object G_bkall[level << G_shift | b] (each WheelLevel owns a distinct vector of _ticksPerWheel = 1 << G_shift buckets), so that a loop contract can name what the
+ * nested loops assign; the id map enumerates the entry pool G_pool[0..G_map_n) (an unordered_map iteration visits every element exactly once). */
+#ifdef CLEAR_MATRIX
+#define IORA_BUCKET_AT(w, b) (G_bkall[(((size_t)(&(w) - self->_wheels)) << G_shift) + (b)])
+#define CELL_(l, b) (G_bkall[((l) << G_shift) + (b)])
+#define CLEARED_(l, b) (CELL_(l, b).head == NULL && CELL_(l, b).tail == NULL)
+#define IORA_LOOP_TimingWheel_clearAllEntries_1 IORA_LC( \
+  __CPROVER_assigns(iora_k, __CPROVER_object_whole(G_pool), self->_freeListHead, toDestroy.n, G_pool_locks) \
+  __CPROVER_loop_invariant(iora_k <= G_map_n) \
+  __CPROVER_loop_invariant((GK < iora_k) ==> (G_pool[GK].id == InvalidTimerId && G_pool[GK].callback == NULL)) \
+  __CPROVER_decreases(G_map_n - iora_k))
+#define IORA_LOOP_TimingWheel_clearAllEntries_2 IORA_LC( \
+  __CPROVER_assigns(iora_l, __CPROVER_object_whole(G_bkall)) \
+  __CPROVER_loop_invariant(iora_l <= self->_numWheels) \
+  __CPROVER_loop_invariant((GLv < iora_l) ==> CLEARED_(GLv, GB)) \
+  __CPROVER_decreases(self->_numWheels - iora_l))
+#define IORA_LOOP_TimingWheel_clearAllEntries_3 IORA_LC( \
+  __CPROVER_assigns(iora_b, __CPROVER_object_whole(G_bkall)) \
+  __CPROVER_loop_invariant(iora_b <= self->_ticksPerWheel) \
+  __CPROVER_loop_invariant((GLv < iora_l || (GLv == iora_l && GB < iora_b)) ==> CLEARED_(GLv, GB)) \
+  __CPROVER_decreases(self->_ticksPerWheel - iora_b))
+#else
+#define IORA_BUCKET_AT(w, b) ((w).buckets[b])
 #define IORA_LOOP_TimingWheel_clearAllEntries_1 IORA_LC()
 #define IORA_LOOP_TimingWheel_clearAllEntries_2 IORA_LC()
 #define IORA_LOOP_TimingWheel_clearAllEntries_3 IORA_LC()
+#endif
 
 static inline void iora_drainvec_push(iora_drainvec *v, uint64_t id, void *cb, int64_t deadline) { v->n++; v->last.id = id; v->last.callback = cb; v->last.deadline = deadline; }
